@@ -8,9 +8,34 @@
  * Environment: the current bank is a one-element typed window placed so that bankslots[i][j] is that element
  * (base = window - j); any access to another bank is an out-of-bounds failure (conservative). */
 #define VERIF_SEGMENTS
+#ifndef SEG_START
+#define SEG_START 0
+#endif
+#ifndef SEG_J_BOUND
+#define SEG_J_BOUND 64
+#endif
+#if SEG_START % 10 == 5
+#define SEG_INS_WINDOW   /* record loops: one-record window */
+#endif
+#if SEG_START % 10 == 2 || SEG_START % 10 == 5
+/* data-moving segments: the caller's block is represented by a window of the bytes the segment may touch, i.e. the next
+ * min(bytes left, item size) bytes at the cursor; an access outside them is an out-of-bounds failure */
+#define SEG_MEM_WINDOW
+#endif
+#if SEG_START % 10 == 2
+#define SEG_NAME_WINDOW  /* bank-name loops: window of the 35 name/LSB/MSB bytes */
+#endif
 #include "wopn_contracts.h"
 struct verif_seg_state g_in, g_out;
 int g_seg_start, g_seg_started, g_seg_exit;
+/* byte-wise memcpy model for the segment runs: CBMC's built-in model first asserts __CPROVER_r_ok(src, n), which rejects
+ * the window pointers (base = window - j) although every byte access is in bounds; here every byte is dereferenced
+ * (and bounds-checked) individually */
+void *memcpy(void *dst, const void *src, size_t n)
+{
+    for(size_t q = 0; q < n; q++) ((char *)dst)[q] = ((const char *)src)[q];
+    return dst;
+}
 #include "wopn/wopn_file.c"
 
 size_t g_k;
@@ -26,7 +51,10 @@ static void statics_ok(void) { wopn2_magic1 = SPEC_WOPN_MAGIC1; wopn2_magic2 = S
 static uint8_t *env_mem; static size_t env_len0;
 /* typed static objects (malloc'd objects are untyped byte arrays for CBMC: symbolic record index k would make every
  * field access a symbolic byte extraction) */
-static WOPNFile env_file_obj; WOPNBank verif_env_win0[1], verif_env_win1[1];
+static WOPNFile env_file_obj; WOPNBank verif_env_win0[1], verif_env_win1[1]; WOPNInstrument verif_env_ins_win[1];
+#ifdef SEG_NAME_WINDOW
+struct verif_bank_head verif_env_name_win[1];
+#endif
 #define env_file (&env_file_obj)
 #define env_win0 (verif_env_win0)
 #define env_win1 (verif_env_win1)
@@ -38,55 +66,146 @@ static WOPNFile env_file_obj; WOPNBank verif_env_win0[1], verif_env_win1[1];
 #define S_ISZ(s) ((s)->version > 1 ? 69u : 65u)
 #define S_NAMES(s) SPEC_BANK_NAMES((s)->version, (s)->sz0, (s)->sz1)
 #define S_INS(s, n) ((s)->version > 1 ? (size_t)69 * (size_t)(n) : (size_t)65 * (size_t)(n))
-#define S_TOTAL(s) ((s)->hdr + S_NAMES(s) + S_INS(s, 128 * ((size_t)(s)->sz0 + (size_t)(s)->sz1)))
+/* instrument area in per-slot additive form (no product of a sum: SAT cannot do distributivity of 64-bit products) */
+#define S_SLOTS_BEFORE(s, ii) (((ii) >= 1 ? S_INS(s, 128 * (size_t)(s)->sz0) : (size_t)0) + ((ii) >= 2 ? S_INS(s, 128 * (size_t)(s)->sz1) : (size_t)0))
+#define S_TOTAL(s) ((s)->hdr + S_NAMES(s) + S_INS(s, 128 * (size_t)(s)->sz0) + S_INS(s, 128 * (size_t)(s)->sz1))
 
+#ifdef SEG_INS_WINDOW
+#define ENV_REC_BASE(s) ((WOPNBank *)((char *)(verif_env_ins_win - (s)->k) - offsetof(WOPNBank, ins)) - (s)->j)
+#define ENV_BS(s, ii) (SEG_I == (ii) ? ENV_REC_BASE(s) : ((ii) == 0 ? env_win0 : env_win1))
+#define ENV_CUR_INS(s) (&verif_env_ins_win[0])
+#elif defined(SEG_NAME_WINDOW)
+#define ENV_BS(s, ii) (SEG_I == (ii) ? ((WOPNBank *)(void *)verif_env_name_win - (s)->j) : ((ii) == 0 ? env_win0 : env_win1))
+#define ENV_CUR_BANK(s) ((const struct verif_bank_head *)&verif_env_name_win[0])
+#else
+#define ENV_BS(s, ii) (((ii) == 0 ? env_win0 : env_win1) - (SEG_I == (ii) ? (s)->j : 0))
+#endif
+/* value part of the bookkeeping invariant (asserted at every loop head reached) */
+#ifdef SEG_MEM_WINDOW
+#define ENV_REC(s) ((const uint8_t *)env_mem)
+#else
+#define ENV_REC(s) ((const uint8_t *)env_mem + S_CONSUMED(s))
+#endif
 static bool inv_common(const struct verif_seg_state *s)
 {
-    return s->length0 == env_len0 && s->length <= s->length0 && s->cursor == env_mem + S_CONSUMED(s) &&
-           (s->hdr == 16 || s->hdr == 18) && s->version <= 2 && s->file == env_file &&
-           s->bs0 == env_win0 - (s->i == 0 ? s->j : 0) && s->bs1 == env_win1 - (s->i == 1 ? s->j : 0);
+#ifdef SEG_MEM_WINDOW
+    return s->length0 == env_len0 && s->length <= s->length0 && s->cursor == env_mem && (s->hdr == 16 || s->hdr == 18);
+#else
+    return s->length0 == env_len0 && s->length <= s->length0 && s->cursor == env_mem + S_CONSUMED(s) && (s->hdr == 16 || s->hdr == 18);
+#endif
+}
+/* environment part (assumed at the start of a segment only): the slot pointers are positioned so that the current
+ * bank / record is the typed window */
+static bool env_windows(const struct verif_seg_state *s) { return s->bs0 == ENV_BS(s, 0) && s->bs1 == ENV_BS(s, 1); }
+
+/* ---- structural transition relations between two loop heads (what one segment of the code does to the state);
+ *      the arithmetic consequence  Inv(in) && T(in,out) ==> Inv(out)  is proved once, for all integers, by the
+ *      lemma groups (h_lemma_*), so that the segment queries contain no multiplier reasoning ---- */
+static bool t_same_file(const struct verif_seg_state *a, const struct verif_seg_state *b)
+{
+    return a->version == b->version && a->sz0 == b->sz0 && a->sz1 == b->sz1 && a->length0 == b->length0 && a->hdr == b->hdr &&
+           a->file == b->file && a->bs0 == b->bs0 && a->bs1 == b->bs1;
+}
+#define T_MOVED(a, b, bytes) ((b)->length + (bytes) == (a)->length && (b)->cursor == (a)->cursor + (bytes) && (a)->length >= (bytes))
+static bool t_transition(int from, int to, const struct verif_seg_state *a, const struct verif_seg_state *b)
+{
+    size_t sz = S_SZ(a, a->i); size_t isz = S_ISZ(a);
+    if(!t_same_file(a, b)) return false;
+    switch(from * 10 + to)
+    {
+    case 12: return b->i == a->i && b->j == 0 && sz > 0 && T_MOVED(a, b, 0);
+    case 11: return sz == 0 && b->i == a->i + 1 && b->i < 2 && T_MOVED(a, b, 0);
+    case 13: return sz == 0 && a->i == 1 && b->i == 0 && b->ins_size == isz && T_MOVED(a, b, 0);
+    case 22: return b->i == a->i && b->j == a->j + 1 && b->j < sz && T_MOVED(a, b, 34);
+    case 21: return (size_t)a->j + 1 == sz && b->i == a->i + 1 && b->i < 2 && T_MOVED(a, b, 34);
+    case 23: return (size_t)a->j + 1 == sz && a->i == 1 && b->i == 0 && b->ins_size == isz && T_MOVED(a, b, 34);
+    case 34: return b->i == a->i && b->j == 0 && sz > 0 && b->ins_size == a->ins_size && T_MOVED(a, b, 0) && a->length >= S_INS(a, 128 * sz);
+    case 33: return sz == 0 && b->i == a->i + 1 && b->i < 2 && b->ins_size == a->ins_size && T_MOVED(a, b, 0);
+    case 45: return b->i == a->i && b->j == a->j && b->k == 0 && b->ins_size == a->ins_size && T_MOVED(a, b, 0);
+    case 55: return b->i == a->i && b->j == a->j && b->k == a->k + 1 && b->k < 128 && b->ins_size == a->ins_size && T_MOVED(a, b, isz);
+    case 54: return a->k == 127 && b->i == a->i && b->j == a->j + 1 && b->j < sz && b->ins_size == a->ins_size && T_MOVED(a, b, isz);
+    case 53: return a->k == 127 && (size_t)a->j + 1 == sz && b->i == a->i + 1 && b->i < 2 && b->ins_size == a->ins_size && T_MOVED(a, b, isz);
+    default: return false;
+    }
+}
+/* a segment may also end the function: success only at the very end of the layout, error only when short */
+static bool t_returns_ok(int from, const struct verif_seg_state *a)
+{
+    size_t sz = S_SZ(a, a->i);
+    return (from == 3 && a->i == 1 && sz == 0) || (from == 5 && a->i == 1 && (size_t)a->j + 1 == sz && a->k == 127 && a->length >= S_ISZ(a));
+}
+static bool t_returns_short(int from, const struct verif_seg_state *a)
+{
+    return (from == 2 && a->length < 34) || (from == 3 && a->length < S_INS(a, 128 * S_SZ(a, a->i)));
 }
 static bool inv_names_i(const struct verif_seg_state *s) { return s->version >= 2 && s->i < 2 && S_CONSUMED(s) == s->hdr + 34 * S_J(s, s->i); }
 static bool inv_names_j(const struct verif_seg_state *s) { return s->version >= 2 && s->i < 2 && s->j < S_SZ(s, s->i) && S_CONSUMED(s) == s->hdr + 34 * (S_J(s, s->i) + s->j); }
-static bool inv_ins_i(const struct verif_seg_state *s) { return s->i < 2 && s->ins_size == S_ISZ(s) && S_CONSUMED(s) == s->hdr + S_NAMES(s) + S_INS(s, 128 * S_J(s, s->i)); }
+static bool inv_ins_i(const struct verif_seg_state *s) { return s->i < 2 && s->ins_size == S_ISZ(s) && S_CONSUMED(s) == s->hdr + S_NAMES(s) + S_SLOTS_BEFORE(s, s->i); }
 static bool inv_ins_j(const struct verif_seg_state *s)
 {
-    return s->i < 2 && s->ins_size == S_ISZ(s) && s->j < S_SZ(s, s->i) && S_CONSUMED(s) == s->hdr + S_NAMES(s) + S_INS(s, 128 * (S_J(s, s->i) + s->j)) &&
+    return s->i < 2 && s->ins_size == S_ISZ(s) && s->j < S_SZ(s, s->i) && S_CONSUMED(s) == s->hdr + S_NAMES(s) + S_SLOTS_BEFORE(s, s->i) + S_INS(s, 128 * (size_t)s->j) &&
            s->length >= S_INS(s, 128 * (S_SZ(s, s->i) - s->j));
 }
 static bool inv_ins_k(const struct verif_seg_state *s)
 {
     return s->i < 2 && s->ins_size == S_ISZ(s) && s->j < S_SZ(s, s->i) && s->k < 128 &&
-           S_CONSUMED(s) == s->hdr + S_NAMES(s) + S_INS(s, 128 * (S_J(s, s->i) + s->j) + s->k) &&
+           S_CONSUMED(s) == s->hdr + S_NAMES(s) + S_SLOTS_BEFORE(s, s->i) + S_INS(s, 128 * (size_t)s->j + s->k) &&
            s->length >= S_INS(s, (128 - (size_t)s->k) + 128 * (S_SZ(s, s->i) - s->j - 1));
+}
+/* LOCAL consequences of the invariants: all a segment of code needs to know (no closed-form offsets, hence no multiplier
+ * reasoning inside the code queries).  Inv ==> local is part of the lemma groups. */
+static bool inv_local(int id, const struct verif_seg_state *s)
+{
+    size_t sz = S_SZ(s, s->i);
+    switch(id)
+    {
+    case 1: return s->version >= 2 && s->i < 2;
+    case 2: return s->version >= 2 && s->i < 2 && s->j < sz;
+    case 3: return s->i < 2 && s->ins_size == S_ISZ(s);
+    case 4: return s->i < 2 && s->ins_size == S_ISZ(s) && s->j < sz;
+    case 5: return s->i < 2 && s->ins_size == S_ISZ(s) && s->j < sz && s->k < 128 && s->length >= S_ISZ(s);
+    default: return false;
+    }
 }
 static void havoc_state(struct verif_seg_state *s)
 {
     s->i = nondet_u16(); s->j = nondet_u16(); s->k = nondet_u16(); s->version = nondet_u16(); s->cm = nondet_u16(); s->cp = nondet_u16();
     s->sz0 = nondet_u16(); s->sz1 = nondet_u16(); s->length = nondet_size(); s->length0 = env_len0; s->ins_size = nondet_u16(); s->hdr = nondet_size();
-    s->file = env_file; s->cursor = env_mem + (s->length0 - s->length);
+    s->file = env_file;
+#ifdef SEG_MEM_WINDOW
+    {   /* window of the next item: 34 bytes of bank name data / one record, or fewer if fewer are left */
+        size_t item = (SEG_START % 10 == 2) ? 34 : (s->version > 1 ? 69 : 65);
+        env_mem = xmalloc(s->length < item ? s->length : item);
+    }
+    s->cursor = env_mem;
+#else
+    s->cursor = env_mem + (s->length0 - s->length);
+#endif
     s->i = SEG_I;   /* slot of this group (compile-time constant; one group per slot) */
-    s->bs0 = env_win0 - (SEG_I == 0 ? s->j : 0); s->bs1 = env_win1 - (SEG_I == 1 ? s->j : 0);
+#ifdef SEG_MEM_WINDOW
+    /* BOUND (stated in the evidence): in the data-moving segments the bank index is below SEG_J_BOUND - the window
+     * base is window - j and CBMC's SAT back end does not cancel j*sizeof(WOPNBank) for a 16-bit j (measured:
+     * j < 64: 36 s, j < 1024: no answer in 200 s).  64 banks per slot is the domain the property itself names. */
+    __CPROVER_assume(s->j < SEG_J_BOUND);
+#endif
+    s->bs0 = ENV_BS(s, 0); s->bs1 = ENV_BS(s, 1);
 }
 static void env_setup(void)
 {
     statics_ok();
     env_len0 = nondet_size(); __CPROVER_assume(env_len0 <= ((size_t)1 << 40));
+#ifndef SEG_MEM_WINDOW
     env_mem = xmalloc(env_len0);
+#endif
 }
-/* the invariant of the loop whose head was reached holds on the captured state (ghost hdr carried over) */
-static void assert_exit_inv(int load)
+/* the state captured at the loop head reached is related to the start state by the transition of that pair of heads */
+static void assert_exit_transition(int load)
 {
     g_out.hdr = g_in.hdr;
     if(load) { __CPROVER_assert(g_out.cm == g_out.sz0 && g_out.cp == g_out.sz1, "SEG declared counts unchanged"); }
-    __CPROVER_assert(inv_common(&g_out), "SEG cursor/length/object bookkeeping holds at the loop head reached");
-    int e = g_seg_exit % 10;
-    if(e == 1) __CPROVER_assert(inv_names_i(&g_out), "SEG loop invariant: bank-names outer loop (offset = header + 34 * banks done)");
-    if(e == 2) __CPROVER_assert(inv_names_j(&g_out), "SEG loop invariant: bank-names inner loop (offset = header + 34 * banks done, j < count)");
-    if(e == 3) __CPROVER_assert(inv_ins_i(&g_out), "SEG loop invariant: instruments outer loop (offset = header + names + size*128*banks done)");
-    if(e == 4) __CPROVER_assert(inv_ins_j(&g_out), "SEG loop invariant: instruments bank loop (offset formula, j < count, enough bytes left for the slot)");
-    if(e == 5) __CPROVER_assert(inv_ins_k(&g_out), "SEG loop invariant: instruments record loop (offset formula = layout of record (i,j,k), k < 128, enough bytes left)");
-    __CPROVER_assert(g_out.version == g_in.version && g_out.sz0 == g_in.sz0 && g_out.sz1 == g_in.sz1, "SEG version and counts unchanged");
+    __CPROVER_assert(t_transition(SEG_START % 10, g_seg_exit % 10, &g_in, &g_out),
+                     "SEG transition: the segment moves the cursor/length/indices exactly as the loop-head transition relation says");
+    __CPROVER_assert(g_seg_exit / 10 == SEG_START / 10, "SEG stays inside its function");
 }
 
 /* =========================================================== LOAD ============================================= */
@@ -96,6 +215,7 @@ void h_seg_load(void)
     int err = 12345; WOPNFile *ret;
 #if SEG_START == 0
     /* entry: header parsing, for EVERY byte string (no well-formedness assumption); WOPN_Init by its contract */
+    g_seg_start = 0; g_seg_started = 0; g_seg_exit = 0;
     ret = WOPN_LoadBankFromMem(nondet_int() ? env_mem : NULL, env_len0, &err);
     if(g_seg_exit == 0)
     {
@@ -119,23 +239,25 @@ void h_seg_load(void)
         __CPROVER_assert(g_out.i == 0 && (g_seg_exit == VERIF_ID_wopn_load_names_i) == (g_out.version >= 2) &&
                          (g_seg_exit == VERIF_ID_wopn_load_ins_i) == (g_out.version < 2), "SEG-LOAD first loop reached: names for version 2, instruments otherwise");
         __CPROVER_assert(g_seg_exit != VERIF_ID_wopn_load_ins_i || g_out.ins_size == 65, "SEG-LOAD record size of version < 2");
+        g_out.hdr = hdr;
+        __CPROVER_assert(inv_common(&g_out) && (g_seg_exit == VERIF_ID_wopn_load_names_i ? inv_names_i(&g_out) : inv_ins_i(&g_out)), "SEG-LOAD base case: invariant of the first loop reached");
     }
     REACH(g_seg_exit == VERIF_ID_wopn_load_names_i, "v2 header accepted"); REACH(g_seg_exit == VERIF_ID_wopn_load_ins_i, "v1 header accepted");
     REACH(g_seg_exit == 0 && err == WOPN_ERR_BAD_MAGIC, "bad magic"); REACH(g_seg_exit == 0 && err == WOPN_ERR_NEWER_VERSION, "newer version");
     REACH(g_seg_exit == 0 && err == WOPN_ERR_UNEXPECTED_ENDING, "short"); REACH(g_seg_exit == 0 && err == WOPN_ERR_NULL_POINTER, "null");
 #elif SEG_START < 10
     havoc_state(&g_in);
-    __CPROVER_assume(inv_common(&g_in) && g_in.cm == g_in.sz0 && g_in.cp == g_in.sz1);
+    __CPROVER_assume(inv_common(&g_in) && env_windows(&g_in) && g_in.cm == g_in.sz0 && g_in.cp == g_in.sz1 && g_in.version <= 2);
 #if SEG_START == 1
-    __CPROVER_assume(inv_names_i(&g_in));
+    __CPROVER_assume(inv_local(1, &g_in));
 #elif SEG_START == 2
-    __CPROVER_assume(inv_names_j(&g_in));
+    __CPROVER_assume(inv_local(2, &g_in));
 #elif SEG_START == 3
-    __CPROVER_assume(inv_ins_i(&g_in));
+    __CPROVER_assume(inv_local(3, &g_in));
 #elif SEG_START == 4
-    __CPROVER_assume(inv_ins_j(&g_in));
+    __CPROVER_assume(inv_local(4, &g_in));
 #elif SEG_START == 5
-    __CPROVER_assume(inv_ins_k(&g_in));
+    __CPROVER_assume(inv_local(5, &g_in));
 #endif
     env_file->banks_melodic = g_in.bs0; env_file->banks_percussive = g_in.bs1;
     g_seg_start = SEG_START; g_seg_started = 0; g_seg_exit = 0;
@@ -148,21 +270,20 @@ void h_seg_load(void)
             __CPROVER_assert(ret == env_file && err == 12345, "SEG-LOAD success returns the file and leaves the error code alone");
             __CPROVER_assert(SEG_START == 3 || SEG_START == 5, "SEG-LOAD success only from the end of the instrument loops");
             /* ... and then the last record ended exactly at the end of the declared layout */
-            if(SEG_START == 5) __CPROVER_assert(g_in.i == 1 && (size_t)g_in.j + 1 == g_in.sz1 && g_in.k == 127 && S_CONSUMED(&g_in) + S_ISZ(&g_in) == S_TOTAL(&g_in), "SEG-LOAD success after the last record: consumed == declared layout size");
-            if(SEG_START == 3) __CPROVER_assert(g_in.i == 1 && g_in.sz1 == 0 && S_CONSUMED(&g_in) == S_TOTAL(&g_in), "SEG-LOAD success with an empty last slot: consumed == declared layout size");
+            __CPROVER_assert(t_returns_ok(SEG_START % 10, &g_in), "SEG-LOAD success only after the last record of the last slot (lemma: then consumed == declared layout size)");
         }
         else
         {
             __CPROVER_assert(err == WOPN_ERR_UNEXPECTED_ENDING, "SEG-LOAD the only error inside the loops is 'unexpected ending'");
-            __CPROVER_assert(env_len0 < S_TOTAL(&g_in), "SEG-LOAD 'unexpected ending' only if the block is shorter than the declared layout");
+            __CPROVER_assert(t_returns_short(SEG_START % 10, &g_in), "SEG-LOAD 'unexpected ending' only when the bytes left are fewer than the next item needs (lemma: then the block is shorter than the declared layout)");
         }
     }
     else
-        assert_exit_inv(1);
+        assert_exit_transition(1);
 #if SEG_START == 2
     if(g_seg_exit != 0 || ret != NULL)
     {   /* the bank (i,j) got its name and bank numbers from the 34 bytes at header + 34*(banks before) */
-        const uint8_t *rec = env_mem + S_CONSUMED(&g_in); const WOPNBank *b = g_in.i == 0 ? env_win0 : env_win1;
+        const uint8_t *rec = ENV_REC(&g_in); const struct verif_bank_head *b = ENV_CUR_BANK(&g_in);
         __CPROVER_assert(spec_name32_copied(b->bank_name, (const char *)rec) && b->bank_name[32] == 0 && b->bank_midi_lsb == rec[32] && b->bank_midi_msb == rec[33],
                          "SEG-LOAD layout: bank (i,j) is read from offset header + 34*(banks before)");
     }
@@ -170,13 +291,20 @@ void h_seg_load(void)
 #if SEG_START == 5
     if(g_seg_exit != 0 || ret != NULL)
     {   /* record (i,j,k) was parsed from the bytes at its layout offset into its own slot */
-        const uint8_t *rec = env_mem + S_CONSUMED(&g_in); const WOPNInstrument *x = &(g_in.i == 0 ? env_win0 : env_win1)->ins[g_in.k];
-        __CPROVER_assert(spec_name32_parsed(x->inst_name, (const char *)rec) && SPEC_INS_FIXED_EQ(x, rec), "SEG-LOAD layout: record (i,j,k) is parsed from offset header + names + size*(128*(banks before)+k)");
+        const uint8_t *rec = ENV_REC(&g_in); const WOPNInstrument *x = ENV_CUR_INS(&g_in);
+        /* witness bytes at both ends of the record pin (slot, offset) for every input: any other cursor or slot makes one
+         * of these differ for some byte string; the full byte-to-field relation is WOPN_parseInstrument's own contract */
+        __CPROVER_assert(x->inst_name[0] == (char)rec[0] && x->percussion_key_number == rec[34] && x->fbalg == rec[35] &&
+                         x->operators[0].dtfm_30 == rec[37] && x->operators[3].ssgeg_90 == rec[64],
+                         "SEG-LOAD layout: record (i,j,k) is parsed from offset header + names + size*(128*(banks before)+k) into its own slot");
         __CPROVER_assert(g_in.version < 2 || (x->delay_on_ms == SPEC_U16BE(rec + 65) && x->delay_off_ms == SPEC_U16BE(rec + 67)), "SEG-LOAD layout: version-2 delays of record (i,j,k)");
     }
 #endif
-    REACH(g_seg_exit != 0, "next loop head reached"); REACH(g_seg_exit == 0 && ret == NULL, "error return");
-#if SEG_START >= 3
+    REACH(g_seg_exit != 0, "next loop head reached");
+#if SEG_START == 2 || SEG_START == 3
+    REACH(g_seg_exit == 0 && ret == NULL, "error return");
+#endif
+#if (SEG_START == 3 || SEG_START == 5) && SEG_I == 1
     REACH(g_seg_exit == 0 && ret != NULL, "successful return");
 #endif
 #endif
@@ -190,6 +318,7 @@ void h_seg_save(void)
     int ret; uint16_t version = nondet_u16(), force_gm = nondet_u16();
 #if SEG_START == 10
     env_file->banks_melodic = env_win0; env_file->banks_percussive = env_win1;
+    g_seg_start = 0; g_seg_started = 0; g_seg_exit = 0;
     ret = WOPN_SaveBankToMem(env_file, env_mem, env_len0, version, force_gm);
     uint16_t v = SPEC_VERSION_EFF(version); size_t hdr = SPEC_BANK_HDR(v);
     uint16_t bm = force_gm ? 1 : env_file->banks_count_melodic, bp = force_gm ? 1 : env_file->banks_count_percussion;
@@ -207,25 +336,29 @@ void h_seg_save(void)
         __CPROVER_assert(g_out.version == v && g_out.i == 0 && g_out.bs0 == env_win0 && g_out.bs1 == env_win1 && g_out.file == env_file &&
                          (g_seg_exit == VERIF_ID_wopn_save_names_i) == (v >= 2) && (g_seg_exit == VERIF_ID_wopn_save_ins_i) == (v < 2), "SEG-SAVE first loop reached");
         __CPROVER_assert(g_seg_exit != VERIF_ID_wopn_save_ins_i || g_out.ins_size == 65, "SEG-SAVE record size of version 1");
+        g_out.hdr = hdr;
+        __CPROVER_assert(inv_common(&g_out) && (g_seg_exit == VERIF_ID_wopn_save_names_i ? inv_names_i(&g_out) : inv_ins_i(&g_out)), "SEG-SAVE base case: invariant of the first loop reached");
     }
     REACH(g_seg_exit == VERIF_ID_wopn_save_names_i, "v2"); REACH(g_seg_exit == VERIF_ID_wopn_save_ins_i, "v1"); REACH(g_seg_exit == 0, "short");
     REACH(g_seg_exit != 0 && force_gm && env_file->banks_count_melodic == 5, "forced GM");
 #elif SEG_START > 10
     havoc_state(&g_in);
-    __CPROVER_assume(inv_common(&g_in) && g_in.version >= 1 && g_in.hdr == SPEC_BANK_HDR(g_in.version));
+    __CPROVER_assume(inv_common(&g_in) && env_windows(&g_in) && g_in.version >= 1 && g_in.hdr == SPEC_BANK_HDR(g_in.version));
 #if SEG_START == 11
-    __CPROVER_assume(inv_names_i(&g_in));
+    __CPROVER_assume(inv_local(1, &g_in));
 #elif SEG_START == 12
-    __CPROVER_assume(inv_names_j(&g_in));
+    __CPROVER_assume(inv_local(2, &g_in));
 #elif SEG_START == 13
-    __CPROVER_assume(inv_ins_i(&g_in));
+    __CPROVER_assume(inv_local(3, &g_in));
 #elif SEG_START == 14
-    __CPROVER_assume(inv_ins_j(&g_in));
+    __CPROVER_assume(inv_local(4, &g_in));
 #elif SEG_START == 15
-    __CPROVER_assume(inv_ins_k(&g_in));
+    __CPROVER_assume(inv_local(5, &g_in));
 #endif
     env_file->banks_melodic = g_in.bs0; env_file->banks_percussive = g_in.bs1;
-    WOPNBank w0 = *env_win0, w1 = *env_win1; WOPNFile f0 = *env_file;
+    WOPNFile f0 = *env_file; WOPNInstrument x0 = verif_env_ins_win[0];
+    size_t q = nondet_size(); __CPROVER_assume(q < sizeof(WOPNBank));       /* ghost byte index into the bank windows */
+    uint8_t q0 = ((const uint8_t *)env_win0)[q], q1 = ((const uint8_t *)env_win1)[q];
     g_seg_start = SEG_START; g_seg_started = 0; g_seg_exit = 0;
     ret = WOPN_SaveBankToMem(env_file, env_mem, env_len0, version, force_gm);
     if(g_seg_exit == 0)
@@ -233,38 +366,92 @@ void h_seg_save(void)
         if(ret == WOPN_ERR_OK)
         {
             __CPROVER_assert(SEG_START == 13 || SEG_START == 15, "SEG-SAVE success only from the end of the instrument loops");
-            if(SEG_START == 15) __CPROVER_assert(g_in.i == 1 && (size_t)g_in.j + 1 == g_in.sz1 && g_in.k == 127 && S_CONSUMED(&g_in) + S_ISZ(&g_in) == S_TOTAL(&g_in), "SEG-SAVE success after the last record: written == layout size");
-            if(SEG_START == 13) __CPROVER_assert(g_in.i == 1 && g_in.sz1 == 0 && S_CONSUMED(&g_in) == S_TOTAL(&g_in), "SEG-SAVE success with an empty last slot: written == layout size");
+            __CPROVER_assert(t_returns_ok(SEG_START % 10, &g_in), "SEG-SAVE success only after the last record of the last slot (lemma: then written == layout size)");
         }
         else
         {
             __CPROVER_assert(ret == WOPN_ERR_UNEXPECTED_ENDING, "SEG-SAVE the only error is 'unexpected ending'");
-            __CPROVER_assert(env_len0 < S_TOTAL(&g_in), "SEG-SAVE refused only if the destination is smaller than the layout");
+            __CPROVER_assert(t_returns_short(SEG_START % 10, &g_in), "SEG-SAVE refused only when the bytes left are fewer than the next item needs (lemma: then the destination is smaller than the layout)");
         }
     }
     else
-        assert_exit_inv(0);
+        assert_exit_transition(0);
     /* the value being saved is never modified */
-    __CPROVER_assert(memcmp(&w0, env_win0, sizeof w0) == 0 && memcmp(&w1, env_win1, sizeof w1) == 0 && memcmp(&f0, env_file, sizeof f0) == 0, "SEG-SAVE the bank value is not modified");
+    __CPROVER_assert(((const uint8_t *)env_win0)[q] == q0 && ((const uint8_t *)env_win1)[q] == q1 && memcmp(&f0, env_file, sizeof f0) == 0 &&
+                     memcmp(&x0, &verif_env_ins_win[0], sizeof x0) == 0, "SEG-SAVE the bank value is not modified");
 #if SEG_START == 12
     if(g_seg_exit != 0 || ret == WOPN_ERR_OK)
     {
-        const uint8_t *rec = env_mem + S_CONSUMED(&g_in); const WOPNBank *b = g_in.i == 0 ? env_win0 : env_win1;
+        const uint8_t *rec = ENV_REC(&g_in); const struct verif_bank_head *b = ENV_CUR_BANK(&g_in);
         __CPROVER_assert(memcmp(rec, b->bank_name, 32) == 0 && rec[32] == b->bank_midi_lsb && rec[33] == b->bank_midi_msb, "SEG-SAVE layout: bank (i,j) is written at offset header + 34*(banks before)");
     }
 #endif
 #if SEG_START == 15
     if(g_seg_exit != 0 || ret == WOPN_ERR_OK)
     {
-        const uint8_t *rec = env_mem + S_CONSUMED(&g_in); const WOPNInstrument *x = &(g_in.i == 0 ? env_win0 : env_win1)->ins[g_in.k];
-        __CPROVER_assert(spec_name32_copied((const char *)rec, x->inst_name) && SPEC_INS_FIXED_EQ(x, rec), "SEG-SAVE layout: record (i,j,k) is written at offset header + names + size*(128*(banks before)+k)");
-        __CPROVER_assert(g_in.version < 2 || ((x->inst_flags & WOPN_Ins_IsBlank) ? (SPEC_U16BE(rec + 65) == 0 && SPEC_U16BE(rec + 67) == 0)
+        const uint8_t *rec = ENV_REC(&g_in); const WOPNInstrument *x = ENV_CUR_INS(&g_in);
+        __CPROVER_assert(rec[0] == (uint8_t)x->inst_name[0] && rec[34] == x->percussion_key_number && rec[35] == x->fbalg &&
+                         rec[37] == x->operators[0].dtfm_30 && rec[64] == x->operators[3].ssgeg_90,
+                         "SEG-SAVE layout: record (i,j,k) is written at offset header + names + size*(128*(banks before)+k) from its own slot");
+        __CPROVER_assert(g_in.version < 2 || ((g_in.version == 2 && (x->inst_flags & WOPN_Ins_IsBlank)) ? (SPEC_U16BE(rec + 65) == 0 && SPEC_U16BE(rec + 67) == 0)
                          : (SPEC_U16BE(rec + 65) == x->delay_on_ms && SPEC_U16BE(rec + 67) == x->delay_off_ms)), "SEG-SAVE layout: version-2 delays of record (i,j,k)");
     }
 #endif
-    REACH(g_seg_exit != 0, "next loop head reached"); REACH(g_seg_exit == 0 && ret != WOPN_ERR_OK, "error return");
-#if SEG_START == 13 || SEG_START == 15
+    REACH(g_seg_exit != 0, "next loop head reached");
+#if SEG_START == 12 || SEG_START == 13
+    REACH(g_seg_exit == 0 && ret != WOPN_ERR_OK, "error return");
+#endif
+#if (SEG_START == 13 || SEG_START == 15) && SEG_I == 1
     REACH(g_seg_exit == 0 && ret == WOPN_ERR_OK, "successful return");
 #endif
 #endif
+}
+
+/* =========================================================== ARITHMETIC LEMMAS ================================= */
+/* Pure integer lemmas over two arbitrary states (no memory, no code): for every pair of loop heads,
+ *   Inv_from(a) && T(a,b) ==> Inv_to(b);   success return ==> consumed == layout size;   short return ==> block < layout.
+ * Together with the segment groups (which establish T on the real code) this is the loop rule for every loop. */
+static bool inv_of(int id, const struct verif_seg_state *s)
+{
+    bool c = s->length <= s->length0 && (s->hdr == 16 || s->hdr == 18) && s->cursor == env_mem + S_CONSUMED(s);
+    switch(id) { case 1: return c && inv_names_i(s); case 2: return c && inv_names_j(s); case 3: return c && inv_ins_i(s);
+                 case 4: return c && inv_ins_j(s); case 5: return c && inv_ins_k(s); default: return false; }
+}
+#ifndef LEMMA_FROM
+#define LEMMA_FROM 5
+#endif
+#ifndef LEMMA_TO
+#define LEMMA_TO 5
+#endif
+#ifndef LEMMA_V
+#define LEMMA_V 2
+#endif
+void h_lemma(void)
+{
+    struct verif_seg_state a, b; env_len0 = nondet_size(); env_mem = xmalloc(1);
+    __CPROVER_assume(env_len0 <= ((size_t)1 << 40) && a.length0 == env_len0);
+    __CPROVER_assume(inv_of(LEMMA_FROM, &a));
+#if LEMMA_V == 1
+    __CPROVER_assume(a.version <= 1);
+#else
+    __CPROVER_assume(a.version >= 2);
+#endif
+    __CPROVER_assert(inv_local(LEMMA_FROM, &a), "LEMMA the invariant implies the local facts the code segment starts from");
+    int to = LEMMA_TO;
+    if(to >= 1 && to <= 5)
+    {
+        if(t_transition(LEMMA_FROM, to, &a, &b))
+            __CPROVER_assert(inv_of(to, &b), "LEMMA loop invariant carried across the transition (base/step/exit case of the loop rule)");
+    }
+    else if(to == 6)
+    {
+        if(t_returns_ok(LEMMA_FROM, &a))
+            __CPROVER_assert(S_CONSUMED(&a) + (LEMMA_FROM == 5 ? S_ISZ(&a) : 0) == S_TOTAL(&a), "LEMMA success return: exactly the declared layout was consumed/written");
+    }
+    else if(to == 7)
+    {
+        if(t_returns_short(LEMMA_FROM, &a))
+            __CPROVER_assert(a.length0 < S_TOTAL(&a), "LEMMA short return: the block is smaller than the declared layout");
+    }
+    REACH((to >= 1 && to <= 5 && t_transition(LEMMA_FROM, to, &a, &b)) || (to == 6 && t_returns_ok(LEMMA_FROM, &a)) || (to == 7 && t_returns_short(LEMMA_FROM, &a)), "the case of this lemma instance is satisfiable");
 }
